@@ -88,6 +88,8 @@ pub fn domain_values() -> Vec<RV> {
         RV::Tuple(vec![RV::Int(1), RV::Int(2)]),
         RV::Tuple(vec![]),
         RV::Tuple(vec![RV::Empty]),
+        // a long string (in-place fast paths like to start at some length)
+        RV::Str("long ".repeat(70)),
     ]
 }
 
@@ -485,7 +487,8 @@ impl Phase for Histories {
         self.n
     }
     fn run(&mut self, idx: u64, r: &mut Rng, out: &mut Out) {
-        let names = ["a", "b", "c", "d", "e"];
+        let all_names = ["a", "b", "c", "d", "e", "f1", "g2", "h3", "i4", "j5", "k6", "l7", "m8", "n9", "o10", "p11", "q12", "r13", "s14", "t15"];
+        let names = if idx % 3 == 0 { &all_names[..] } else { &all_names[..5] };
         let steps = r.range(50, 300);
         out.begin(|| format!("random history #{} of {} steps", idx, steps));
         let mut lives: Vec<Live> = vec![fresh()];
@@ -495,13 +498,13 @@ impl Phase for Histories {
         let assign_ops = ["=", "=", "=", "+=", "-=", "*=", "/=", "%=", "^=", "&&=", "||="];
         for _ in 0..steps {
             let which = r.below(lives.len());
-            let k = *r.pick(&names);
+            let k = *r.pick(names);
             let op = match r.below(20) {
                 0..=4 => Op::SetValue(k.to_string(), if r.chance(1, 2) { r.pick(&domain_values()).clone() } else { r.pick(&pool).clone() }),
                 5..=11 => {
                     let v = r.pick(&lit_pool).clone();
                     let src = if r.chance(1, 6) {
-                        format!("{} {} {}", k, r.pick(&assign_ops), r.pick(&names))
+                        format!("{} {} {}", k, r.pick(&assign_ops), r.pick(names))
                     } else {
                         format!("{} {} {}", k, r.pick(&assign_ops), v.literal().unwrap())
                     };
@@ -532,7 +535,7 @@ impl Phase for Histories {
                     }
                 }
                 for l in &lives {
-                    check_state(l, &names, &mut rep);
+                    check_state(l, names, &mut rep);
                 }
             }
             out.eval();
@@ -547,6 +550,95 @@ impl Phase for Histories {
         }
         out.nontrivial(&format!("history {}", hist.join(";")));
         out.sample(|| format!("{} steps, e.g. {}", steps, hist.iter().take(6).cloned().collect::<Vec<_>>().join(" ; ")));
+    }
+}
+
+/// many names: dozens to hundreds of variables and functions in one context, then type-changing assignments,
+/// clears and re-use (whatever a context does differently once it is large, or once it has been large)
+struct ManyNames {
+    n: u64,
+}
+
+impl Phase for ManyNames {
+    fn name(&self) -> String {
+        "contexts with 10-300 variables and 10-200 functions".into()
+    }
+    fn len(&self) -> u64 {
+        self.n
+    }
+    fn run(&mut self, idx: u64, r: &mut Rng, out: &mut Out) {
+        let nv = r.range(10, 300);
+        let nf = r.range(10, 200);
+        out.begin(|| format!("many-names history #{} ({} variables, {} functions)", idx, nv, nf));
+        let mut live = fresh();
+        let vals = domain_values();
+        let mut hist: Vec<String> = Vec::new();
+        let mut bad: Option<(String, String, String)> = None;
+        let mut step = |op: Op, live: &mut Live, hist: &mut Vec<String>, bad: &mut Option<(String, String, String)>| {
+            hist.push(op.show());
+            let mut rep = |ru: &str, e: String, o: String| {
+                if bad.is_none() {
+                    *bad = Some((ru.to_string(), e, o));
+                }
+            };
+            let _ = apply(&op, live, &mut rep);
+        };
+        for i in 0..nv {
+            step(Op::SetValue(format!("v{}", i), vals[i % vals.len()].clone()), &mut live, &mut hist, &mut bad);
+        }
+        for i in 0..nf {
+            step(if i % 2 == 0 { Op::SetFn(format!("fn{}", i)) } else { Op::SetFnConst(format!("fn{}", i)) }, &mut live, &mut hist, &mut bad);
+        }
+        // type-changing and same-type assignments on a large context, through the API and through expressions
+        for _ in 0..30 {
+            let k = format!("v{}", r.below(nv));
+            let v = r.pick(&vals).clone();
+            if r.chance(1, 2) {
+                step(Op::SetValue(k, v), &mut live, &mut hist, &mut bad);
+            } else if let Some(l) = v.literal() {
+                step(expr_op(&format!("{} {} {}", k, r.pick(&["=", "+=", "*=", "&&="]), l)), &mut live, &mut hist, &mut bad);
+            }
+        }
+        let tail = match r.below(4) {
+            0 => Op::ClearFuns,
+            1 => Op::ClearVars,
+            2 => Op::Clear,
+            _ => Op::CloneCtx,
+        };
+        step(tail, &mut live, &mut hist, &mut bad);
+        // and the context is used again afterwards
+        for i in 0..12 {
+            step(Op::SetValue(format!("v{}", i), vals[(i + 3) % vals.len()].clone()), &mut live, &mut hist, &mut bad);
+            step(Op::SetValue(format!("v{}", i), vals[(i + 4) % vals.len()].clone()), &mut live, &mut hist, &mut bad);
+        }
+        step(Op::SetFn("fn0".into()), &mut live, &mut hist, &mut bad);
+        step(Op::ClearFuns, &mut live, &mut hist, &mut bad);
+        out.evals(hist.len() as u64);
+        // complete state: every variable and function name ever used
+        let names: Vec<String> = (0..nv).map(|i| format!("v{}", i)).collect();
+        let name_refs: Vec<&str> = names.iter().map(|s| s.as_str()).collect();
+        {
+            let mut rep = |ru: &str, e: String, o: String| {
+                if bad.is_none() {
+                    bad = Some((ru.to_string(), e, o));
+                }
+            };
+            check_state(&live, &name_refs, &mut rep);
+            for i in 0..nf {
+                let f = format!("fn{}", i);
+                let r2 = live.ctx.call_function(&f, &Value::Int(7));
+                let has = live.model.funs.contains_key(&f);
+                if r2.is_ok() != has {
+                    rep("state/call_function", format!("{} {}", f, if has { "defined" } else { "undefined" }), format!("{:?}", r2));
+                }
+            }
+        }
+        out.nontrivial(&format!("many {} {} {}", nv, nf, idx));
+        if let Some((rule, e, o)) = bad {
+            let shown: Vec<String> = hist.iter().rev().take(10).rev().cloned().collect();
+            out.violation(&format!("context/{}", rule), format!("{} variables, {} functions bound, then …{}", nv, nf, shown.join(" ; ")), e, o);
+        }
+        out.sample(|| format!("{} variables and {} functions, {} steps, state equals the model", nv, nf, hist.len()));
     }
 }
 
@@ -573,6 +665,9 @@ pub fn phases(cfg: &Cfg) -> Vec<Box<dyn Phase>> {
         }),
         Box::new(Histories {
             n: cfg.n(6_000, 100_000),
+        }),
+        Box::new(ManyNames {
+            n: cfg.n(400, 12_000),
         }),
     ]
 }
